@@ -7,6 +7,8 @@ import (
 	"text/template/parse"
 
 	"go/types"
+
+	"golang.org/x/tools/go/ssa"
 )
 
 // Template model: the font program is one string constant handed to
@@ -221,4 +223,139 @@ func compositeLitOf(p *packages.Package, e ast.Expr) *ast.CompositeLit {
 		}
 	}
 	return nil
+}
+
+// tmplFunc resolves a function of the template's FuncMap to its SSA function (a function
+// literal in the map, or a package-level function named there).
+func (c *Ctx) tmplFunc(name string) *ssa.Function {
+	t := c.fontTemplate()
+	e, ok := t.fnExpr[name]
+	if !ok {
+		return nil
+	}
+	switch x := ast.Unparen(e).(type) {
+	case *ast.FuncLit:
+		for _, fn := range c.modFuncs {
+			if fn.Syntax() == ast.Node(x) {
+				return fn
+			}
+		}
+	case *ast.Ident:
+		if f, ok := c.info("type1").ObjectOf(x).(*types.Func); ok {
+			return c.prog.FuncValue(f)
+		}
+	case *ast.SelectorExpr:
+		if f, ok := c.info("type1").ObjectOf(x.Sel).(*types.Func); ok {
+			return c.prog.FuncValue(f)
+		}
+	}
+	return nil
+}
+
+// dateAction finds the action of the template that writes the creation date (the field of the
+// template data whose type is time.Time, outside conditions) and returns the text in front of
+// it and the time layout it is formatted with: the string argument of `.Field.Format "…"`, or
+// the constant layout a function of the pipeline hands to time.Time.Format.
+func (c *Ctx) dateAction() (before, layout string, found bool) {
+	t := c.fontTemplate()
+	fi := c.typeObj("type1", "fontInfo").Type().Underlying().(*types.Struct)
+	dateField := ""
+	for i := 0; i < fi.NumFields(); i++ {
+		if fi.Field(i).Type().String() == "time.Time" {
+			dateField = fi.Field(i).Name()
+		}
+	}
+	if dateField == "" {
+		return "", "", false
+	}
+	for _, sec := range t.order {
+		prev := ""
+		for _, it := range t.items(sec) {
+			if it.action == "" {
+				prev += it.text
+				continue
+			}
+			an, ok := it.node.(*parse.ActionNode)
+			if !ok {
+				// the text in front of an action continues through the opening of a condition
+				if !strings.HasPrefix(it.action, "if ") {
+					prev = ""
+				}
+				continue
+			}
+			before := prev
+			prev = ""
+			cmds := an.Pipe.Cmds
+			if len(cmds) == 0 || len(cmds[0].Args) == 0 {
+				continue
+			}
+			fn, ok := cmds[0].Args[0].(*parse.FieldNode)
+			if !ok || len(fn.Ident) == 0 || fn.Ident[0] != dateField {
+				continue
+			}
+			layout := ""
+			if len(fn.Ident) == 2 && fn.Ident[1] == "Format" && len(cmds[0].Args) == 2 {
+				if sn, ok := cmds[0].Args[1].(*parse.StringNode); ok {
+					layout = sn.Text
+				}
+			}
+			for _, cmd := range cmds[1:] {
+				if len(cmd.Args) == 0 {
+					continue
+				}
+				id, ok := cmd.Args[0].(*parse.IdentifierNode)
+				if !ok {
+					continue
+				}
+				if l, ok := c.formatLayoutOf(c.tmplFunc(id.Ident), 2); ok {
+					layout = l
+				}
+			}
+			return before, layout, true
+		}
+	}
+	return "", "", false
+}
+
+// formatLayoutOf: the single constant layout fn (or a module function it calls) passes to
+// (time.Time).Format / AppendFormat.
+func (c *Ctx) formatLayoutOf(fn *ssa.Function, depth int) (string, bool) {
+	if fn == nil || len(fn.Blocks) == 0 {
+		return "", false
+	}
+	var layouts []string
+	eachInstr(fn, func(ins ssa.Instruction) {
+		call, ok := ins.(ssa.CallInstruction)
+		if !ok {
+			return
+		}
+		sc := call.Common().StaticCallee()
+		if sc == nil {
+			return
+		}
+		switch sc.String() {
+		case "(time.Time).Format":
+			if l, ok := constString(call.Common().Args[1]); ok {
+				layouts = append(layouts, l)
+			} else {
+				layouts = append(layouts, "\x00not constant")
+			}
+		case "(time.Time).AppendFormat":
+			if l, ok := constString(call.Common().Args[2]); ok {
+				layouts = append(layouts, l)
+			} else {
+				layouts = append(layouts, "\x00not constant")
+			}
+		default:
+			if depth > 0 && c.inModule(sc) {
+				if l, ok := c.formatLayoutOf(sc, depth-1); ok {
+					layouts = append(layouts, l)
+				}
+			}
+		}
+	})
+	if len(layouts) == 1 && !strings.HasPrefix(layouts[0], "\x00") {
+		return layouts[0], true
+	}
+	return "", false
 }
